@@ -3,6 +3,7 @@ package model
 import (
 	"errors"
 	"fmt"
+	zp "github.com/Oudwins/zog/internals"
 	"github.com/Oudwins/zog/zconst"
 	"reflect"
 	"regexp"
@@ -926,6 +927,9 @@ type Exec struct {
 	CtxVals   []KV   `json:"ctxVals,omitempty"`   // WithCtxValue(k, v)
 	Formatter string `json:"formatter,omitempty"` // WithIssueFormatter stamping this marker
 	LogIssues bool   `json:"logIssues,omitempty"` // WithIssueFormatter that logs issue creation and delegates to the global formatter
+	// Cold: the execution starts with empty object pools (internals.ClearPools()), as the first one of a process or
+	// the first after a garbage collection does: every pooled helper object is fresh, nothing has grown yet
+	Cold bool `json:"cold,omitempty"`
 }
 
 // Iss is a normalised issue.
@@ -1114,6 +1118,9 @@ func RunWith(schema z.ZogSchema, e *Env, x Exec, data any, dest reflect.Value, e
 		e.Reset()
 	}
 	opts := append(e.execOpts(x), extra...)
+	if x.Cold {
+		zp.ClearPools()
+	}
 	defer func() {
 		if p := recover(); p != nil {
 			if s, ok := p.(string); ok && strings.HasPrefix(s, "model:") {
